@@ -55,6 +55,17 @@ Definition baseline : list access := [
   mkA "collision_core.geom_collision_pair_from_types" "geom_xmat_in" RWorld (IParam "worldid") ARead;
   mkA "collision_core.geom_collision_pair_from_types" "geom_size" RBatch (IMod "geom_size" false) ARead;
   mkA "collision_core.geom_collision_pair_from_types" "geom_dataid" RBatch (IMod "geom_dataid" false) ARead;
+  (* collision_driver._broadphase_filter.func (wp.func built by a factory, called from the NXN and SAP
+     broadphase kernels with a decoded world id): each batched geom field is read at
+     worldid % n where n is the factory's static parameter; the extractor resolves n through the
+     factory call sites to <the same array>.shape[0] (otherwise the index class names the other
+     expression and this entry no longer matches) *)
+  mkA "collision_driver._broadphase_filter.func" "geom_aabb" RBatch (IMod "geom_aabb" false) ARead;
+  mkA "collision_driver._broadphase_filter.func" "geom_rbound" RBatch (IMod "geom_rbound" false) ARead;
+  mkA "collision_driver._broadphase_filter.func" "geom_margin" RBatch (IMod "geom_margin" false) ARead;
+  mkA "collision_driver._broadphase_filter.func" "geom_gap" RBatch (IMod "geom_gap" false) ARead;
+  mkA "collision_driver._broadphase_filter.func" "geom_xpos_in" RWorld (IParam "worldid") ARead;
+  mkA "collision_driver._broadphase_filter.func" "geom_xmat_in" RWorld (IParam "worldid") ARead;
   (* collision_driver._sap_broadphase.kernel *)
   mkA "collision_driver._sap_broadphase.kernel" "body_awake_in" RWorld IOther ARead;
   (* collision_flex._flex_flex_sap_sweep.kernel *)
